@@ -116,3 +116,41 @@ func c13R6(c *Ctx) {
 func c01R10(c *Ctx) {
 	shareRule(c, "C12.R14", "C01.R10", c12R14, "no goroutine that is counted in a step's WaitGroup waits on that group (e.g. by calling the step's public ForceClose from the step goroutine): it would block for ever, and with it terminateAllSteps and Execute")
 }
+
+// C07: the run loop panics when a stage node that it resolved is then marked unresolvable (or the other way round):
+// a step that reports one stage both finished and failed crashes the process instead of failing the run.
+func c07R8(c *Ctx) {
+	shareTraceRule(c, "C12.R3", "C07.R8", "on every explored path of a step goroutine no stage is reported finished twice or both finished and failed: markStageNodeUnresolvable panics (in the step's goroutine, unrecovered) when the node it is asked to fail was already resolved")
+}
+
+// C01: a receive without an alternative blocks its goroutine until somebody sends or closes; Close/ForceClose wait for
+// that goroutine before they close anything, so terminateAllSteps — and Execute — never return.
+func c01R12(c *Ctx) {
+	shareRule(c, "C06.R1", "C01.R12", c06R1, "every blocking channel operation of the run path has a context/timer case or cannot block: a step goroutine parked in a bare receive is waited for by Close/ForceClose (which cancel the context first and close channels only afterwards), so the run that has to close the step never returns")
+}
+
+// C01: a stage that is left "finished" without any of its declared outputs leaves those output nodes pending for ever.
+func c01R13(c *Ctx) {
+	shareTraceRule(c, "C12.R15", "C01.R13", "on every explored path a stage that declares outputs is reported finished only with one of them (or is reported failed): otherwise the nodes of its outputs are neither resolved nor impossible, whatever waits for them stays pending, and the run ends only when the fallback detector finds no step running — i.e. it waits for unrelated or never-ending steps")
+}
+
+// C08: the `error` output of the loop step declares data as a map of item index -> the sub-workflow's success object:
+// entries for failed items (nil) do not conform.
+func c08R8(c *Ctx) {
+	shareRule(c, "C13.R3", "C08.R8", c13R3, "the loop step's outputs have the declared shapes: `success` carries the result list, `error` carries the messages and only the non-nil results keyed by index — a nil entry is not an object of the sub-workflow's output schema, so consumers typed against the declaration receive ill-typed data")
+}
+
+// C02 / C03: which producer's data a `!oneof` or an optional input hands to the consumer is part of "the data the
+// dependencies produced" and of the prescribed result.
+func c02R10(c *Ctx) {
+	shareRule(c, "C15.R2", "C02.R10", c15R2, "a one-of takes the option whose dependency still carries the Or-mark (the first that resolved) and ignores the obviated ones, and an optional value is used only when its group node is among the resolved dependencies: a consumer evaluated late is otherwise handed the data of a producer that lost the race, or a placeholder for a stage that never produced anything")
+}
+func c03R9(c *Ctx) {
+	shareRule(c, "C15.R2", "C03.R9", c15R2, "a one-of with several produced options still evaluates (the obviated options are skipped, not an error) to the first that resolved, and optional values are present exactly when their producers resolved: otherwise a run whose output is producible ends in an error or with another producer's data")
+}
+
+// C03: a stage reported finished although a stage with a declared And-edge into it was reported failed cannot be
+// resolved by the run loop: the run is cancelled with an error although an output was producible.
+func c03R10(c *Ctx) {
+	shareTraceRule(c, "C12.R1", "C03.R10", "on every explored path the step reports only declared stages and finishes no stage before the stages with a declared And-edge into it (the lifecycle tables and the provider's failure sequences agree): otherwise the run loop fails to resolve the stage node, reports the failure and cancels a run whose declared output was producible")
+}
